@@ -185,8 +185,11 @@ def run_tsc(case):
         pk = names[:2]
         adjs.append(at.optimization.SpendingPackageAdjustment("pkg", yrs[0], pk, np.array([init[p] for p in pk]), min_props=[0.2, 0.1], max_props=[0.9, 0.8], min_total_spend=50.0, max_total_spend=400.0, fix_props=(mix == "package_fixed")))
         plain = names[2:]
+    # bounds differ between the years of a multi-year adjustment
+    lower_y = {y: (lower if i == 0 else lower * 0.5) for i, y in enumerate(yrs)}
+    upper_y = {y: (upper if i == 0 or not np.isfinite(upper) else upper * 1.5) for i, y in enumerate(yrs)}
     for p in plain:
-        adjs.append(at.SpendingAdjustment(p, yrs, ltype, lower, upper))
+        adjs.append(at.SpendingAdjustment(p, yrs, ltype, [lower_y[y] for y in yrs], [upper_y[y] for y in yrs]))
     opt = at.Optimization(adjustments=adjs, measurables=[at.MaximizeMeasurable("b", [2020, 2024])], constraints=[at.TotalSpendConstraint(budget_factor=case["bf"])], maxiters=1, maxtime=1e9)
     vs = []
     counters = {}
@@ -198,7 +201,8 @@ def run_tsc(case):
     # expected bounds / totals / feasibility per constrained year, from the spec (never from the library's own tables)
     def bounds_year(p, t):
         x = init[p] * yfac[t]
-        return (lower if ltype == "abs" else lower * x), (upper if (ltype == "abs" or not np.isfinite(upper)) else upper * x)
+        lo_t, hi_t = lower_y[t], upper_y[t]
+        return (lo_t if ltype == "abs" else lo_t * x), (hi_t if (ltype == "abs" or not np.isfinite(hi_t)) else hi_t * x)
 
     def feasible_year(t):
         tot = sum(init[p] * yfac[t] for p in names) * case["bf"]
